@@ -195,6 +195,8 @@ def parse_json_ui(out):
 def run_unit(u, tier, keep=False, extra_defs=(), want_trace_for=None, relax_cover=False):
     r = UnitResult(u)
     t0 = time.time()
+    if u.get("script"):
+        return run_script_unit(u, r, t0)
     wd = tempfile.mkdtemp(prefix="vu_", dir=WORKROOT)
     r.workdir = wd
     try:
@@ -291,6 +293,32 @@ def run_unit(u, tier, keep=False, extra_defs=(), want_trace_for=None, relax_cove
         r.total_s = time.time() - t0
         if not keep:
             shutil.rmtree(wd, ignore_errors=True)
+
+
+def run_script_unit(u, r, t0):
+    """supporting static fact computed by a script from /repo's current sources; its findings become obligations"""
+    cmd = [sys.executable, os.path.join(VERIF, u["script"])]
+    r.cmds = [" ".join(cmd)]
+    rc, out, err, secs = run(cmd, u.get("timeout", 300), 8)
+    r.solver_s = secs; r.total_s = time.time() - t0
+    if rc not in (0, 1):
+        r.status, r.reason = "undecided", "toolchain: %s rc=%d %s" % (u["script"], rc, (out + err)[-400:])
+        return r
+    try:
+        d = json.loads(out)
+    except Exception:
+        r.status, r.reason = "undecided", "toolchain: script output not json"
+        return r
+    bad = set((v["file"], v["symbol"]) for v in d["violations"])
+    for f in d["found"]:
+        st = "FAILURE" if (f["file"], f["symbol"]) in bad else "SUCCESS"
+        r.obligations.append({"name": "static.%s.%s" % (f["file"], f["symbol"]), "tags": [u["tag"]], "status": st,
+                              "description": "writable static-lifetime object %s in %s is on the reviewed allow-list (%s)" % (f["symbol"], f["file"], u["tag"]),
+                              "file": os.path.join(REPO, "Lib", f["file"]), "line": 0, "function": "", "clause": "", "bounded": False, "unit": u["name"]})
+    r.canary = True
+    if len(r.obligations) < u.get("min_obligations", 1):
+        r.status, r.reason = "undecided", "vacuous: inventory found %d objects" % len(r.obligations)
+    return r
 
 
 # ---------------------------------------------------------------------------------------------------
@@ -462,6 +490,18 @@ def main():
 
 def _main(args, tier, seed, prop, t_start):
     units = [u for u in UNITS.all_units() if prop in u["props"] and (tier == "thorough" or not u.get("thorough_only"))]
+    if prop == "C04" and tier == "quick" and not args.unit:
+        # C04 rides on every unit; the quick tier keeps one member of each compile-time variant family (the families run in full under their own
+        # property in the same session and under C04 in the thorough tier)
+        seen_fam, keep = set(), []
+        for u in units:
+            fam = u["name"].split("#")[0]
+            if "#" in u["name"]:
+                if fam in seen_fam:
+                    continue
+                seen_fam.add(fam)
+            keep.append(u)
+        units = keep
     if args.unit:
         units = [u for u in units if u["name"] in args.unit]
     if not units:
@@ -558,8 +598,11 @@ def _main(args, tier, seed, prop, t_start):
 
     # ------------------------------------------------------------------ evidence
     wall = time.time() - t_start
-    unb = [o for o in ob_mine if not o["bounded"]]
-    bnd = [o for o in ob_mine if o["bounded"]]
+    kf_names = set((ob["unit"], ob["name"]) for _, ob in known_hits)
+    note_n = sum(1 for o in ob_mine if o["status"] == "NOTE")
+    counted = [o for o in ob_mine if (o["unit"], o["name"]) not in kf_names and o["status"] != "NOTE"]
+    unb = [o for o in counted if not o["bounded"]]
+    bnd = [o for o in counted if o["bounded"]]
     spec = UNITS.PROPS.get(prop, {})
     samples = []
     seen = set()
@@ -579,6 +622,7 @@ def _main(args, tier, seed, prop, t_start):
         "bounded_obligations": len(bnd), "bounded_discharged": sum(1 for o in bnd if o["status"] == "SUCCESS"),
         "bounds": {u["name"]: u.get("bound_note", "") for u in units if u.get("bounded")},
         "tagged_obligations": sum(1 for o in ob_mine if o["tags"]),
+        "known_finding_obligations_not_counted": len(kf_names), "ub_notes_not_counted": note_n,
         "checker_cmd": "goto-cc ... && goto-instrument --dfcc <harness> --enforce-contract <f> [--replace-call-with-contract g]* [--apply-loop-contracts] && cbmc "
                        + " ".join(CBMC_CHECKS) + " --sat-solver cadical --object-bits 12   (exact per-unit commands under 'units')",
         "trusted_base": UNITS.TRUSTED_BASE + spec.get("trusted", []),
